@@ -48,7 +48,7 @@ pub struct Case {
     pub folder: Vec<FolderFile>,
 }
 
-const RULE: &str = "ledgers 2014-06..2027-04 whose every monetary field independently is GBP or one of 10 currencies x rate folders (none / overriding used months / adding months beyond the bundled range, two files for one month with different modification times, both file-name styles); twin = every foreign amount divided by the expected rate; non-trivial = a line whose price and fee are in different currencies, or one currency used in two months, or a folder overriding a month the ledger uses; distinct by DSL hash + folder";
+const RULE: &str = "ledgers 2014-06..2027-04 (day offsets stretched x1/x12/x30/x61/x365, so ledgers span days to years) whose every monetary field independently is GBP or one of 10 currencies x rate folders (none / overriding used months / adding months beyond the bundled range, two files for one month with different modification times, both file-name styles); twin = every foreign amount divided by the expected rate; non-trivial = a line whose price and fee are in different currencies, or one currency used in two months, or a folder overriding a month the ledger uses; distinct by DSL hash + folder";
 
 fn folder_strategy(max: usize) -> BoxedStrategy<Vec<FolderFile>> {
     let file = (
@@ -70,7 +70,19 @@ fn folder_strategy(max: usize) -> BoxedStrategy<Vec<FolderFile>> {
 
 fn strat(t: Tier) -> BoxedStrategy<Case> {
     let cfg = GenCfg::basic().secs(2).days(2, t.pick(10, 20)).splits(SplitMode::Terminating).events(true).dividends(true).years(2014, 2026);
-    (lgen::ledger_strategy(cfg), proptest::collection::vec(0u8..16, 24), prop_oneof![3 => Just(vec![]).boxed(), 5 => folder_strategy(4)]).prop_map(|(gl, cur, folder)| Case { gl, cur, folder }).boxed()
+    // the generated day offsets are stretched by a factor, so that one ledger also spans many
+    // months and several years (the same currency in the same month of different years)
+    (lgen::ledger_strategy(cfg), proptest::collection::vec(0u8..16, 24), prop_oneof![3 => Just(vec![]).boxed(), 5 => folder_strategy(4)], prop_oneof![3 => Just(1i64), 1 => Just(12i64), 1 => Just(30i64), 1 => Just(61i64), 1 => Just(365i64)])
+        .prop_map(|(mut gl, cur, folder, k)| {
+            if let Some(first) = gl.ledger.iter().map(|t| t.date).min() {
+                for t in gl.ledger.iter_mut() {
+                    let off = (t.date - first).num_days() * k;
+                    t.date = first + chrono::Duration::days(off.min(5000));
+                }
+            }
+            Case { gl, cur, folder }
+        })
+        .boxed()
 }
 
 /// same, but the folder files are aimed at the months the ledger uses
